@@ -127,6 +127,9 @@ class Printer:
 def definition(g, name, inputs, root, share=True, known=None):
     """Definition name (inputs : R) : R := let .. in expr
     known: node id -> text of a call to an earlier generated definition"""
+    args0 = (" (%s : R)" % " ".join(inputs)) if inputs else ""
+    if known and root in known:
+        return "Definition %s%s : R :=\n  %s.\n" % (name, args0, known[root])
     known = {k: v for k, v in (known or {}).items() if k != root}
     nodes, uses = cone(g, [root], stop=set(known))
     bound = dict(known)
@@ -150,10 +153,11 @@ def definition(g, name, inputs, root, share=True, known=None):
         "Definition %s%s : R :=\n  %s.\n" % (name, args, body)
 
 
-def prop_definition(g, name, inputs, conds):
+def prop_definition(g, name, inputs, conds, known=None):
     """Definition name (inputs : R) : Prop := c1 /\\ c2 ...  (conds = [(cond, taken)])"""
-    nodes, uses = cone(g, [], [c for c, _ in conds])
-    bound = {}
+    known = dict(known or {})
+    nodes, uses = cone(g, [], [c for c, _ in conds], stop=set(known))
+    bound = dict(known)
     for i in nodes:
         if g.nodes[i][0] == "in":
             bound[i] = g.nodes[i][1]
@@ -163,7 +167,7 @@ def prop_definition(g, name, inputs, conds):
         op = g.nodes[i][0]
         if op in ("const", "in", "pi"):
             continue
-        if uses[i] > 1:
+        if uses[i] > 1 and i not in known:
             nm = "v%d" % i
             lets.append("  let %s := %s in" % (nm, pr.expr(i)))
             bound[i] = nm
